@@ -150,7 +150,7 @@ func VH_C18_snapshot() {
 	})
 }
 
-//verif:check C18 reach=end,opError,plainErr desc="response codecs incl. unexpectedErr with and without OpError" bounds="result any byte; error strings of 0..2 symbolic bytes"
+//verif:check C18 reach=end,opError,plainErr,reused-receiver desc="response codecs incl. unexpectedErr with and without OpError, into a fresh receiver and into one that held an error reply before" bounds="result any byte; error strings of 0..2 symbolic bytes"
 func VH_C18_responses() {
 	x := resp{term: vU64("term"), result: rpcResult(vU8("result"))}
 	if x.result == unexpectedErr {
@@ -182,12 +182,19 @@ func VH_C18_responses() {
 		}
 		return a.Error() == b.Error()
 	}
+	// the receiver is fresh, or reused after holding an error reply (replication.replicate decodes every reply of a
+	// connection into one appendResp): decoding replaces every field either way
+	stale := resp{}
+	if vChoice(2) == 1 {
+		stale = resp{term: 9, result: unexpectedErr, err: errors.New("left over from the previous reply")}
+		vReach("reused-receiver")
+	}
 	if vChoice(2) == 0 {
-		y := resp{}
+		y := stale
 		vRoundTrip("resp", x.encode, y.decode, func() bool { return x.term == y.term && x.result == y.result && sameErr(x.err, y.err) })
 	} else {
 		xa := &appendResp{x, vU64("lastLogIndex")}
-		ya := &appendResp{}
+		ya := &appendResp{resp: stale, lastLogIndex: 77}
 		vRoundTrip("appendResp", xa.encode, ya.decode, func() bool {
 			return xa.term == ya.term && xa.result == ya.result && sameErr(xa.err, ya.err) && xa.lastLogIndex == ya.lastLogIndex
 		})
